@@ -11,6 +11,24 @@ TASK = "lsp::server::Server::update_diagnostics::{closure#0}"
 PUBLISH = "<async_lsp::ClientSocket as async_lsp::LanguageClient>::publish_diagnostics"
 
 
+def _deep_origins(prog, body, operand, depth=0):
+    """origins of an operand, followed through the receivers/arguments of the calls they come from (bounded)"""
+    out = set()
+    todo = [(operand, 0)]
+    seen = set()
+    while todo:
+        op, d = todo.pop()
+        for x in prov.origins(body, op):
+            if x in seen:
+                continue
+            seen.add(x)
+            out.add(x)
+            if x[0] == "call" and d < 5:
+                for a in body.term(x[2])["args"]:
+                    todo.append((a, d + 1))
+    return out
+
+
 def run(ck, prog):
     ck.explanation = (
         "Convergence over all histories and schedules is not a static statement. Decided necessary conditions "
@@ -77,17 +95,52 @@ def run(ck, prog):
     ck.ob("R11.2", "publish-every-entry", ok, detail,
           msg="the diagnostics task does not publish every (file, diagnostics) entry on every path (%s): a file whose "
               "diagnostics are skipped keeps whatever was published before" % detail)
-    # the published list is the entry's own list converted (not filtered)
-    for i in pubs:
+    # the published list is the entry's own list converted (not filtered); an empty list is published only for a
+    # file that does not come from the current result (a file that left the workspace, R11.4)
+    clearing = []
+    for i in sorted(pubs):
         po = all_origins(prog, t, t.term(i)["args"][1])
         built = [x for bp, x in po if x[0] == "call" and x[1].endswith("PublishDiagnosticsParams::new")]
         okl = False
         for x in built:
             tt = t.term(x[2])
             lo = prov.origins(t, tt["args"][1])
-            okl = all(y[0] == "call" and y[1].endswith("Iterator::collect") for y in lo)
-        ck.ob("R11.2", "published-list", okl, "the published list is the collected conversion of the entry's diagnostics",
+            uo = prov.origins(t, tt["args"][0])
+            if lo and all(y[0] == "call" and re.search(r"Vec::<T>::new$|Vec::<T, A>::new$|Default>::default$", y[1]) for y in lo):
+                # a clearing publication: its file must not be an entry of the current result
+                from_result = any("Analysis::diagnostics" in str(z) for z in _deep_origins(prog, t, tt["args"][0]))
+                okl = not from_result
+                clearing.append((i, uo))
+            else:
+                okl = all(y[0] == "call" and y[1].endswith("Iterator::collect") for y in lo)
+        ck.ob("R11.2", "published-list#%d" % sorted(pubs).index(i), okl,
+              "the published list is the collected conversion of the entry's diagnostics (or an empty list for a file "
+              "outside the current result)",
               msg="the diagnostics task publishes something other than the converted list of the entry")
+
+    # ---- R11.4 -------------------------------------------------------------------
+    # a file that is no longer part of the workspace is cleared: the task must publish for files it is told about by
+    # the main loop, which must derive them from what it remembered of the previous round
+    ck.rule("R11.4", "files that left the workspace are published an empty list")
+    ub4 = prog.body("lsp::server::Server::update_diagnostics")
+    ck.anchor(ub4 is not None, "update_diagnostics not found")
+    remembered = False
+    for i, tt in ub4.calls():
+        c = Body.callee(tt) or ""
+        if re.search(r"HashSet::<[^>]*>::difference$|HashSet::<[^>]*>::(retain|remove|contains)$|HashMap::<[^>]*>::(remove|contains_key)$", c):
+            o = set()
+            for a in tt["args"]:
+                o |= set(prov.origins(ub4, a))
+            if any(x[0] == "arg" and x[1] == 1 and x[2] for x in o):
+                remembered = True
+    ck.ob("R11.4", "previous-round-remembered", remembered,
+          "update_diagnostics compares the workspace files with a set kept in the server from the previous round",
+          msg="update_diagnostics keeps no record of the files it published for before: a file that leaves the workspace "
+              "(its include statement is removed) keeps its last diagnostics in the editor for ever")
+    ck.ob("R11.4", "dropped-files-cleared", bool(clearing),
+          "the task publishes an empty list for files handed to it from outside the current result",
+          msg="the diagnostics task never publishes an empty list for a file outside the current result: files that left "
+              "the workspace are never cleared")
 
     # ---- R11.3 -------------------------------------------------------------------
     ub = prog.body("lsp::server::Server::update_diagnostics")
